@@ -79,7 +79,10 @@ def gen_index(i: int, seed: int, tier: str) -> dict[str, Any]:
                                                    "target_serial": rng.choice([1, 2, 3, 9]),
                                                    # delay of the L_Data.con of every frame sent: a device's answer may
                                                    # overtake the confirmation of the request it answers (UDP tunnel)
-                                                   "con_d": rng.choice([0.003, 0.003, 0.003, 0.06, 0.4, 1.2])},
+                                                   "con_d": rng.choice([0.003, 0.003, 0.003, 0.06, 0.4, 1.2]),
+                                                   # an earlier, unrelated procedure on the same XKNX object: does one of the
+                                                   # bus addresses answer? (connects to it; a device may refuse or stay silent)
+                                                   "prelude": rng.choice(["a", "b", "T"]) if rng.random() < 0.25 else None},
             "devices": devs, "ops": []}
 
 
@@ -113,6 +116,14 @@ def run(plan: dict[str, Any]) -> dict[str, Any]:
 
     async def main():
         xknx.task_registry.start()
+        if cfg.get("prelude"):
+            try:
+                async with asyncio.timeout(60):
+                    await PN.nm_individual_address_check(xknx, IndividualAddress(ADDRS[cfg["prelude"]]))
+            except (ManagementConnectionError, TimeoutError):
+                pass
+            R.extra_faults["earlier_procedure_on_same_xknx"] += 1
+            await asyncio.sleep(1.0)
         try:
             async with asyncio.timeout(120):
                 if proc == "addr_write":
